@@ -227,7 +227,7 @@ func ruleGlobals(c *Ctx) {
 			if fa, ok := st.Addr.(*ssa.FieldAddr); ok {
 				if _, isP := fa.X.(*ssa.Parameter); isP {
 					for _, cd := range g.CondsAtInstr(in) {
-						if b, ok := cd.V.(*ssa.BinOp); ok && b.Op == token.EQL && !cd.Sense {
+						if b, ok := cd.V.(*ssa.BinOp); ok && neHolds(b, cd) {
 							for _, s := range []ssa.Value{b.X, b.Y} {
 								if u, ok := s.(*ssa.UnOp); ok {
 									if gl, ok := u.X.(*ssa.Global); ok {
